@@ -40,8 +40,10 @@ import (
 	"github.com/AdguardTeam/AdGuardDNS/internal/dnsserver"
 	"github.com/AdguardTeam/AdGuardDNS/internal/dnsserver/netext"
 	"github.com/AdguardTeam/AdGuardDNS/internal/dnssvc"
+	"github.com/AdguardTeam/AdGuardDNS/internal/metrics"
 	"github.com/AdguardTeam/AdGuardDNS/verif/vkit"
 	"github.com/miekg/dns"
+	dto "github.com/prometheus/client_model/go"
 )
 
 const (
@@ -59,6 +61,9 @@ type slistener struct {
 
 	srv dnssvc.Listener
 	tls bool
+
+	// labels of the limiter's gauge for this listener
+	confName, confAddr string
 }
 
 type sev struct {
@@ -281,6 +286,9 @@ func (nopErrColl) Collect(context.Context, error) {}
 
 var svcSerial int
 
+// svcSkipHandshakes is set once the failed-handshake step has reported.
+var svcSkipHandshakes bool
+
 // freePort finds a port below the ephemeral range that is free for both UDP
 // and TCP on ip (a plain-DNS server binds UDP first and then TCP on the same
 // port, so port 0 does not work for it).
@@ -396,6 +404,7 @@ func buildServiceOnce(stop, resume int, tlsConf *tls.Config) (svc *dnssvc.Servic
 		ls = append(ls, &slistener{
 			Idx: len(ls), Server: string(srv.Name), Group: grpOf[string(srv.Name)], Proto: srv.Protocol.String(),
 			Flavour: flav[string(srv.Name)], srv: l, tls: srv.Protocol == agd.ProtoDoT,
+			confName: baseConf.Name, confAddr: baseConf.Addr,
 		})
 		return l, nil
 	}
@@ -512,6 +521,85 @@ func serviceCase(r *vkit.Run, idx, stop, resume, filler int, tlsClient, tlsServe
 	if stop < nL+1 {
 		r.Inconclusive("service: stop too small for the number of listeners")
 		return
+	}
+
+	// Phase 0: connections to the DoT listeners whose TLS handshake fails
+	// (non-TLS bytes, a truncated ClientHello, nothing at all), stop+2 per
+	// listener, every one closed by the client.  None of them is open any more,
+	// so an ordinary exchange with the same listener must be served.
+	if !svcSkipHandshakes {
+		for _, l := range ls {
+			if !l.tls {
+				continue
+			}
+			for i := 0; i < stop+2; i++ {
+				raw, derr := net.DialTimeout("tcp", l.Addr, 20*time.Second)
+				if derr != nil {
+					r.Inconclusive(fmt.Sprintf("service: case %d: cannot connect to %s: %v", idx, l.Addr, derr))
+					return
+				}
+				switch i % 3 {
+				case 0:
+					_, _ = raw.Write([]byte("GET / HTTP/1.0\r\n\r\n"))
+				case 1:
+					// the beginning of a TLS 1.2 ClientHello record, cut short
+					_, _ = raw.Write([]byte{0x16, 0x03, 0x01, 0x02, 0x00, 0x01, 0x00, 0x01, 0xfc, 0x03, 0x03})
+				default:
+				}
+				_ = raw.Close()
+				r.Bucket("service_failed_handshakes_sent", 1)
+			}
+			c, derr := m.dial(l)
+			if derr != nil {
+				r.Inconclusive(fmt.Sprintf("service: case %d: cannot connect to %s: %v", idx, l.Addr, derr))
+				return
+			}
+			served := false
+			for polls := 0; polls < 300 && !served; polls++ {
+				served = m.isServed(c)
+				if !served {
+					time.Sleep(time.Duration(1+polls/8) * time.Millisecond)
+				}
+			}
+			if !served {
+				m.mu.Lock()
+				logCopy := append([]sev(nil), m.log...)
+				m.mu.Unlock()
+				w := map[string]any{"log": logCopy, "listener": l, "failed_handshakes_before": stop + 2}
+				for k, x := range desc {
+					w[k] = x
+				}
+				r.Violation("service:dot-connection-not-served-after-failed-handshakes",
+					fmt.Sprintf("stop=%d resume=%d: %d clients connected to the DoT listener of server %s (%s), failed the TLS handshake and went away; no connection is open, "+
+						"but an ordinary DoT exchange with that listener is not served (300 polls, ~6 s): the failed handshakes still hold their slots",
+						stop, resume, stop+2, l.Server, l.Flavour),
+					w)
+				svcSkipHandshakes = true // every further case would only wait for the same thing
+				return
+			}
+			r.Bucket("service_dot_exchanges_served_after_failed_handshakes", 1)
+			m.closeConn(c)
+		}
+	}
+
+	// Let the server finish with the connections of phase 0 (a slot that is given
+	// back a little later would, with the hysteresis, change how far phase A gets,
+	// not what is allowed).  The limiter's own gauge says when only the idle
+	// accept loops hold slots.  Not a verdict.
+	for polls := 0; polls < 3000; polls++ {
+		sum := 0.0
+		for _, l := range ls {
+			var d dto.Metric
+			g := metrics.ConnLimiterActiveStreamConns.WithLabelValues(l.confName, l.Proto, l.confAddr)
+			if g.Write(&d) == nil {
+				sum += d.GetGauge().GetValue()
+			}
+		}
+		if sum == float64(len(ls)) {
+			r.Bucket("service_cases_started_from_idle_gauge", 1)
+			break
+		}
+		time.Sleep(time.Millisecond)
 	}
 
 	// Phase A: `stop` served connections, as many as possible through the
